@@ -15,7 +15,11 @@ EXTENDS Integers, Sequences, FiniteSets, TLC
 Flows == {"operator", "token", "wrapped", "rewrapped"}
 Backends == {"inmem", "file", "storeonce"}
 Substs == {"none", "wrongKey", "tamper", "wrongServerPub", "nonce32", "nonceToken", "swapBundles"}
-Configs == [flow : Flows, backend : Backends, sw : BOOLEAN, state : {"none", "s1"}, params : BOOLEAN, subst : Substs]
+\* roots: "fresh" - both server roots are within their validity; "curExpired" - the current root has just expired and
+\* rotation has not run yet (the next root is valid).  The code issues one chain per STORED root either way, and the node
+\* connects through the chain of the root that is still valid.
+RootAges == {"fresh", "curExpired"}
+Configs == [flow : Flows, backend : Backends, sw : BOOLEAN, state : {"none", "s1"}, params : BOOLEAN, subst : Substs, roots : RootAges]
 
 VARIABLES cfg, pc, srv, resp, nodeHas
 vars == <<cfg, pc, srv, resp, nodeHas>>
